@@ -131,13 +131,14 @@ Theorem C01_ordinary_pattern_end_to_end :
     end.
 Proof. exact ordinary_pattern_end_to_end. Qed.
 
-(* end to end from the pattern and flag strings on the grammar of literals, alternation and
-   capturing / non-capturing groups nested to any depth (grammar trees of Proofs/GroupGrammar.v,
-   printed by show_a): the model's Regex::new (hook constructor: no search shortcuts) + is_match
+(* end to end from the pattern and flag strings on the grammar of literals, quantified characters
+   (c? c* c+ and, under XPath, c?? c*? c+?), alternation and capturing / non-capturing groups nested
+   to any depth (grammar trees of Proofs/GroupGrammar.v, printed by show_a); inputs shorter than
+   usize::MAX: the model's Regex::new (hook constructor: no search shortcuts) + is_match
    = the specification's parser, flag reader and set semantics; every stage a theorem *)
 Theorem C01_group_grammar_end_to_end :
   forall xpath a fls input,
-    ok_a xpath a = true -> existsb (N.eqb 59) fls = false ->
+    ok_a xpath a = true -> existsb (N.eqb 59) fls = false -> (N.of_nat (length input) < umax)%N ->
     match spec_flags xpath fls with
     | Valid sf =>
         s_q sf = false -> s_x sf = false ->
